@@ -41,6 +41,10 @@ var checkGuardedDeleteQ = pattern.MustParse(`
 
 func run(pass *analysis.Pass) (any, error) {
 	for node, m := range code.Matches(pass, checkGuardedDeleteQ) {
+		// m and key are evaluated twice by the guarded form and once by the plain call
+		if code.MayHaveSideEffects(pass, m.State["m"].(ast.Expr), nil) || code.MayHaveSideEffects(pass, m.State["key"].(ast.Expr), nil) {
+			continue
+		}
 		report.Report(pass, node, "unnecessary guard around call to delete",
 			report.ShortRange(),
 			report.FilterGenerated(),
